@@ -272,7 +272,9 @@ theorem foldLeave_ok_or_panic (it : String) (c : Ctx) :
   simp only [bind, Res.bind, pure]
   rcases sm_meetFoldEnd_ok_or_panic (c.scalars.removeIterableValue it).nonIterable with ⟨m1, h1⟩ | ⟨s1, h1⟩
   · rcases sm_meetFoldEnd_ok_or_panic (c.scalars.removeIterableValue it).canonStreams with ⟨m2, h2⟩ | ⟨s2, h2⟩
-    · simp [h1, h2]
+    · rcases sm_meetFoldEnd_ok_or_panic (c.scalars.removeIterableValue it).canonMaps with ⟨m3, h3⟩ | ⟨s3, h3⟩
+      · simp [h1, h2, h3]
+      · simp [h1, h2, h3]
     · simp [h1, h2]
   · simp [h1]
 
@@ -282,7 +284,9 @@ theorem nextAfter_ok_or_panic (c : Ctx) :
   simp only [bind, Res.bind, pure]
   rcases sm_meetNextAfter_ok_or_panic c.scalars.nonIterable with ⟨m1, h1⟩ | ⟨s1, h1⟩
   · rcases sm_meetNextAfter_ok_or_panic c.scalars.canonStreams with ⟨m2, h2⟩ | ⟨s2, h2⟩
-    · simp [h1, h2]
+    · rcases sm_meetNextAfter_ok_or_panic c.scalars.canonMaps with ⟨m3, h3⟩ | ⟨s3, h3⟩
+      · simp [h1, h2, h3]
+      · simp [h1, h2, h3]
     · simp [h1, h2]
   · simp [h1]
 
